@@ -153,6 +153,19 @@ func c08TableOp(t *routing.Table, f []string) string {
 		return c08Opt(t.Lookup(net.IP(unhexTok(f[1]))))
 	case "get":
 		return c08Opt(t.GetRoute(c08Net(f[1], f[2], f[3])))
+	case "lookall":
+		toks := []string{"routes"}
+		for _, r := range t.LookupAll(net.IP(unhexTok(f[1]))) {
+			toks = append(toks, c08RouteStr(r))
+		}
+		return strings.Join(toks, " ")
+	case "has":
+		return fmt.Sprintf("%v", t.HasRoute(c08Net(f[1], f[2], f[3]), c08ID(c08U(f[4]))))
+	case "size":
+		return fmt.Sprintf("size %d %d", t.Size(), t.TotalRoutes())
+	case "clear":
+		t.Clear()
+		return "ok ; " + c08Dump(t)
 	}
 	return "bad-op"
 }
@@ -288,47 +301,173 @@ func c08PickPath(r *rng, self int) string {
 	return strings.Join(xs, ".")
 }
 
-// c08GenCase writes one history against a fresh table.
-func c08GenCase(w *bufio.Writer, r *rng, nops int) {
+// c08Metrics / c08Seqs: small values that force ties plus the boundaries of uint16 / uint64 and of
+// plausible buffer sizes.
+var c08Metrics = []int{0, 1, 1, 2, 3, 5, 9, 255, 256, 257, 4095, 4096, 65534, 65535}
+var c08Seqs = []uint64{1, 1, 2, 2, 3, 4, 255, 256, 65535, 65536, 1<<32 - 1, 1 << 32, 1<<63 - 1, 1 << 63, 1<<64 - 2, 1<<64 - 1}
+
+// c08GenCase writes one history against a fresh table: `agents` bounds origins and next hops,
+// `npool` the number of networks the history keeps returning to.
+func c08GenCase(w *bufio.Writer, r *rng, nops, agents, npool int) {
 	self := 1
 	fmt.Fprintf(w, "reset %d\n", self)
-	pool := make([]c08Pfx, 3+r.intn(5))
+	pool := make([]c08Pfx, npool)
 	for i := range pool {
 		pool[i] = c08PickPfx(r)
 	}
-	metrics := []int{0, 1, 1, 2, 3, 5, 9, 65535}
-	seqs := []uint64{1, 1, 2, 2, 3, 4, 1 << 63, 1<<64 - 1}
+	var last string // the previous add, re-sent now and then (duplicates, refreshes)
 	for i := 0; i < nops; i++ {
 		p := pool[r.intn(len(pool))]
 		if r.chance(5) {
 			p = c08PickPfx(r)
 		}
 		switch k := r.intn(100); {
-		case k < 45:
-			fmt.Fprintf(w, "add %s %d %d %d %d %s\n", p, 1+r.intn(5), 1+r.intn(5), metrics[r.intn(len(metrics))], seqs[r.intn(len(seqs))], c08PickPath(r, self))
-		case k < 70:
+		case k < 40:
+			last = fmt.Sprintf("add %s %d %d %d %d %s", p, 1+r.intn(agents), 1+r.intn(agents), c08Metrics[r.intn(len(c08Metrics))], c08Seqs[r.intn(len(c08Seqs))], c08PickPath(r, self))
+			fmt.Fprintln(w, last)
+		case k < 44 && last != "":
+			fmt.Fprintln(w, last) // exact duplicate: must be refused (same sequence, same metric)
+		case k < 64:
 			fmt.Fprintf(w, "look %s\n", hexTok(c08PickAddr(r, pool)))
-		case k < 78:
-			fmt.Fprintf(w, "rm %s %d\n", p, 1+r.intn(5))
-		case k < 83:
-			fmt.Fprintf(w, "disc %d\n", 1+r.intn(5))
-		case k < 89:
+		case k < 69:
+			fmt.Fprintf(w, "lookall %s\n", hexTok(c08PickAddr(r, pool)))
+		case k < 76:
+			fmt.Fprintf(w, "rm %s %d\n", p, 1+r.intn(agents))
+		case k < 81:
+			fmt.Fprintf(w, "disc %d\n", 1+r.intn(agents))
+		case k < 86:
 			fmt.Fprintf(w, "age %d\n", r.pick(1, 1, 2, 3))
-		case k < 94:
+		case k < 91:
 			fmt.Fprintf(w, "clean %d\n", r.pick(0, 1, 2, 3, 5))
-		default:
+		case k < 95:
 			fmt.Fprintf(w, "get %s\n", p)
+		case k < 98:
+			fmt.Fprintf(w, "has %s %d\n", p, 1+r.intn(agents))
+		case k < 99:
+			fmt.Fprintln(w, "size")
+		default:
+			if r.chance(30) {
+				fmt.Fprintln(w, "clear")
+			} else {
+				fmt.Fprintln(w, "size")
+			}
 		}
 	}
 }
 
+// c08GenBig: one network announced by `n` origins with pairwise distinct metrics (more than 12
+// entries under one key: Go's sort.Slice leaves insertion sort; distinct metrics keep the order
+// determined), then lookups, refreshes and removals on the big slice; and a table with several
+// hundred distinct prefixes.
+func c08GenBig(w *bufio.Writer, r *rng, n int) {
+	fmt.Fprintln(w, "reset 1")
+	perm := make([]int, n)
+	for i := range perm {
+		perm[i] = i
+	}
+	for i := n - 1; i > 0; i-- {
+		j := r.intn(i + 1)
+		perm[i], perm[j] = perm[j], perm[i]
+	}
+	for i, m := range perm {
+		fmt.Fprintf(w, "add 0a010203 8 32 %d %d %d 5 %d\n", 2+i%7, 100+i, 10+m, 100+i)
+		if i%16 == 0 {
+			fmt.Fprintln(w, "look 0a090909")
+		}
+	}
+	fmt.Fprintln(w, "look 0a090909")
+	fmt.Fprintln(w, "size")
+	for i := 0; i < 12; i++ {
+		o := 100 + r.intn(n)
+		switch r.intn(3) {
+		case 0: // refresh with a better metric (still distinct from all others: below 10)
+			fmt.Fprintf(w, "add 0a000000 8 32 3 %d %d 6 %d\n", o, i, o)
+		case 1:
+			fmt.Fprintf(w, "rm 0a0000ff 8 32 %d\n", o)
+		default:
+			fmt.Fprintf(w, "disc %d\n", 2+r.intn(7))
+		}
+		fmt.Fprintln(w, "look 0a090909")
+	}
+	// many prefixes: 10.x.y.0/24 for a few hundred (x,y), nested under /16s and a /8
+	fmt.Fprintln(w, "reset 1")
+	for i := 0; i < n*3; i++ {
+		x, y := r.intn(4), r.intn(256)
+		fmt.Fprintf(w, "add 0a%02x%02x%02x %d 32 %d %d %d 1 -\n", x, y, r.intn(256), r.pick(24, 24, 24, 16, 8, 25, 32), 2+r.intn(5), 2+r.intn(5), r.intn(4))
+		if i%8 == 0 {
+			fmt.Fprintf(w, "look 0a%02x%02x%02x\n", r.intn(4), r.intn(256), r.intn(256))
+		}
+	}
+	fmt.Fprintln(w, "size")
+	fmt.Fprintln(w, "disc 3")
+	fmt.Fprintln(w, "age 2")
+	fmt.Fprintln(w, "clean 1")
+}
+
+// c08GenExhaustive: every history of length <= depth over a small alphabet engineered around one
+// network in two spellings plus a nested one, each followed by the same three lookups.
+func c08GenExhaustive(w *bufio.Writer, depth int) {
+	var alpha []string
+	for _, p := range []string{"0a000000 8 32", "0a010203 8 32", "0a010000 16 32", "00000000000000000000ffff0a000000 104 128"} {
+		for _, o := range []int{2, 3} {
+			for _, m := range []int{1, 2} {
+				alpha = append(alpha, fmt.Sprintf("add %s %d %d %d 1 %d", p, o, o, m, o))
+			}
+			alpha = append(alpha, fmt.Sprintf("rm %s %d", p, o))
+		}
+	}
+	alpha = append(alpha, "disc 2", "add 0a000000 8 32 3 2 1 2 3")
+	var rec func(prefix []string, d int)
+	rec = func(prefix []string, d int) {
+		if len(prefix) > 0 {
+			fmt.Fprintln(w, "reset 1")
+			for _, l := range prefix {
+				fmt.Fprintln(w, l)
+			}
+			fmt.Fprintln(w, "look 0a010909")
+			fmt.Fprintln(w, "look 0a090909")
+			fmt.Fprintln(w, "lookall 00000000000000000000ffff0a010909")
+		}
+		if d == 0 {
+			return
+		}
+		for _, a := range alpha {
+			rec(append(prefix, a), d-1)
+		}
+	}
+	rec(nil, depth)
+}
+
 func c08Gen(w *bufio.Writer, seed int64, tier string) {
 	r := newRng(seed)
-	cases, nops := 220, 40
+	cases, nops := 200, 40
 	if tier == "thorough" {
-		cases, nops = 6000, 50
+		cases, nops = 5000, 50
 	}
 	for c := 0; c < cases; c++ {
-		c08GenCase(w, r, nops)
+		c08GenCase(w, r, nops, 5, 3+r.intn(5))
 	}
+	// low-probability streams: long histories over few networks, many origins, big slices / tables
+	long, big := 2, 1
+	if tier == "thorough" {
+		long, big = 20, 6
+	}
+	for c := 0; c < long; c++ {
+		c08GenCase(w, r, 600, 9, 4)
+	}
+	for c := 0; c < big; c++ {
+		c08GenBig(w, r, 40+r.intn(c08TierPick(tier, 60, 260)))
+	}
+	if tier == "thorough" {
+		c08GenExhaustive(w, 3)
+	} else {
+		c08GenExhaustive(w, 2)
+	}
+}
+
+func c08TierPick(tier string, quick, thorough int) int {
+	if tier == "thorough" {
+		return thorough
+	}
+	return quick
 }
